@@ -137,17 +137,26 @@ GetStart(p) ==      \* gate R_check: the disposed check and, by lifetime, what f
        ELSE stack' = SetTop(p, [f EXCEPT !.pc = "deps", !.todo = DepsOfKey(f.k)]) /\ UNCHANGED <<svars, pvars, result, wstate, gvars>>
     /\ Step(p, "R_check")
 
-GetLookup(p) ==     \* gate R_lookup: cache lookup; claim the construction or find it in flight
+GetLookup(p) ==     \* gate R_lookup: the lock-free cache lookup (read lock only): hit, or go on to the locked section
     /\ AtPc(p, "get", "lookup")
     /\ LET f == Top(p) IN
        IF ~inst[f.s].nil /\ \E i \in inst[f.s].v : i.k = Flight(f.k)
        THEN Return(p, NONE, CHOOSE i \in inst[f.s].v : i.k = Flight(f.k)) /\ UNCHANGED <<svars, pvars, wstate, gvars>>   \* cache hit
+       ELSE stack' = SetTop(p, [f EXCEPT !.pc = "claim"]) /\ UNCHANGED <<svars, pvars, result, wstate, gvars>>
+    /\ Step(p, "R_lookup")
+
+GetClaim(p) ==      \* gate R_claim: under the write lock - look again (somebody may have stored the instance since the
+                    \* lock-free lookup missed), find the construction in flight, or claim it
+    /\ AtPc(p, "get", "claim")
+    /\ LET f == Top(p) IN
+       IF ~inst[f.s].nil /\ \E i \in inst[f.s].v : i.k = Flight(f.k)
+       THEN Return(p, NONE, CHOOSE i \in inst[f.s].v : i.k = Flight(f.k)) /\ UNCHANGED <<svars, pvars, wstate, gvars>>
        ELSE IF Flight(f.k) \in creating[f.s]
        THEN stack' = SetTop(p, [f EXCEPT !.pc = "wait"]) /\ UNCHANGED <<svars, pvars, result, wstate, gvars>>
        ELSE /\ creating' = [creating EXCEPT ![f.s] = @ \cup {Flight(f.k)}]
             /\ stack' = SetTop(p, [f EXCEPT !.pc = "deps", !.todo = DepsOfKey(f.k), !.flight = TRUE])
             /\ UNCHANGED <<exists, parent, disposed, inst, disp, drained, children, ctxDone, done, pvars, result, wstate, gvars>>
-    /\ Step(p, "R_lookup")
+    /\ Step(p, "R_claim")
 
 GetWait(p) ==       \* gate R_wait: blocked until the construction in flight has finished, then look again
     /\ AtPc(p, "get", "wait")
@@ -473,7 +482,7 @@ WatcherExit(w) ==   \* no gate: the goroutine ends when its Close returned
     /\ UNCHANGED <<svars, pvars, stack, result, gvars, ops, hist>>
 
 ProcStep(p) ==
-    \/ GetStart(p) \/ GetLookup(p) \/ GetWait(p) \/ GetDeps(p) \/ GetDepRet(p) \/ GetCtor(p) \/ GetStore(p)
+    \/ GetStart(p) \/ GetLookup(p) \/ GetClaim(p) \/ GetWait(p) \/ GetDeps(p) \/ GetDepRet(p) \/ GetCtor(p) \/ GetStore(p)
     \/ GetTrack(p) \/ GetDiscard(p) \/ PGetStart(p) \/ PGetRoot(p) \/ PGetRet(p)
     \/ CreateStart(p) \/ CreateAddChild(p) \/ CreateTrack(p) \/ CreateAbandoned(p)
     \/ CloseCas(p) \/ CloseChildren(p) \/ CloseNextChild(p) \/ CloseChildRet(p) \/ CloseWaitChild(p)
